@@ -364,8 +364,19 @@ def _sp_post(ctx):
     if tierName not in tiers or tiers[tierName]["class"] != "IntervalTier":
         return
     entries = [e for e in tiers[tierName]["entries"] if e[2] != "" and e[2] != sil]
-    if not entries or any(e[1] > p.nframes / rate for e in entries):
-        REC.skip(mon, "no-entries-or-beyond-audio")
+    if any(e[1] > p.nframes / rate for e in entries):
+        REC.skip(mon, "entry-beyond-audio")
+        return
+    if not entries:
+        # "one file per entry": a tier without (non-silent) entries asks for no file at all - nothing is written, nothing fails
+        REC.outcome(mon, ctx.exc)
+        case0 = {"call": "split", "width": width, "rate": rate, "samples": model, "doc": {"xmin": doc["xmin"], "xmax": doc["xmax"], "tiers": [dict(t, entries=[list(e) for e in t["entries"]]) for t in doc["tiers"]]},
+                 "tier": tierName, "flag": flag, "style": style, "nopart": nopart, "sil": sil, "wavname": os.path.basename(wavFN)}
+        if ctx.exc is not None or list(ctx.result or []) != []:
+            REC.violation(PROP, mon, "splitAudioOnTier", case0, "the tier holds no entry to extract: expected no file and an empty result, got %s" % (
+                "%s: %s" % (type(ctx.exc).__name__, ctx.exc) if ctx.exc is not None else repr(ctx.result)), ("split", "no-entries"), {"op": "split", "exc": type(ctx.exc).__name__ if ctx.exc else None, "no_entries": True})
+        else:
+            REC.held(mon, ("split", "no-entries"), ["C17:split:no-entries"], case0)
         return
     base = os.path.splitext(os.path.basename(wavFN))[0]
     case = {"call": "split", "width": width, "rate": rate, "samples": model, "doc": {"xmin": doc["xmin"], "xmax": doc["xmax"], "tiers": [dict(t, entries=[list(e) for e in t["entries"]]) for t in doc["tiers"]]},
@@ -590,7 +601,9 @@ def workload(tier, rng, shard, nshards, work):
                 lab = labs[len(ents)] if rng.random() < 0.8 else rng.choice(["", "sil", "w0"])
                 ents.append((pts[i], pts[i + 1], lab))
                 i += rng.choice((1, 1, 2))
-            if not any(e[2] not in ("", "sil") for e in ents):
+            if rng.random() < 0.04:
+                ents = [(a, b, rng.choice(["", "sil"])) for a, b, _l in ents]  # nothing but pauses on the target tier
+            if not ents:
                 continue
             t0 = 0.0
             if rng.random() < 0.12 and len(pts) >= 2 and pts[0] > 0:
